@@ -1315,6 +1315,11 @@ class H2Connection:
 
         frames = []
 
+        # A closed connection cannot send WINDOW_UPDATE frames any more, so
+        # there is nothing left to acknowledge.
+        if self.state_machine.state == ConnectionState.CLOSED:
+            return
+
         conn_manager = self._inbound_flow_control_window_manager
         conn_increment = conn_manager.process_bytes(acknowledged_size)
         if conn_increment:
